@@ -13,6 +13,93 @@ use calamine::Data;
 use std::collections::BTreeMap;
 use std::io::{Cursor, Write};
 
+/// How the attributes of an element are spelled — all of it legal XML that a reader must treat alike:
+/// the quote character, white space around `=`, the white space between attributes, and their order.
+#[derive(Clone, Copy, Debug, Default, PartialEq, Eq)]
+pub struct AttrStyle {
+    /// 0: `a="v"`, 1: `a='v'`
+    pub quote: u8,
+    /// white space around `=`: 0 none, 1 before, 2 after, 3 both
+    pub eq: u8,
+    /// between attributes: 0 one blank, 1 two blanks, 2 a line break, 3 tab + blank (and a blank before `>`)
+    pub sep: u8,
+    /// 0: the natural order; otherwise the seed of a permutation of the attributes
+    pub order: u32,
+}
+
+impl AttrStyle {
+    pub fn from_code(n: u32) -> AttrStyle {
+        AttrStyle { quote: (n & 1) as u8, eq: ((n >> 1) & 3) as u8, sep: ((n >> 3) & 3) as u8, order: n >> 5 }
+    }
+    pub fn code(&self) -> u32 {
+        self.quote as u32 | (self.eq as u32) << 1 | (self.sep as u32) << 3 | self.order << 5
+    }
+}
+
+/// Write ` name="value"` for every attribute (`value` already escaped with `escape_attr`) in the given style.
+pub fn write_attrs(out: &mut String, attrs: &[(String, String)], st: AttrStyle) {
+    let mut idx: Vec<usize> = (0..attrs.len()).collect();
+    if st.order != 0 {
+        let mut x = st.order as u64;
+        for i in (1..idx.len()).rev() {
+            x = x.wrapping_mul(6364136223846793005).wrapping_add(1442695040888963407);
+            let j = ((x >> 33) % (i as u64 + 1)) as usize;
+            idx.swap(i, j);
+        }
+    }
+    let sep = [" ", "  ", "\n", "\t "][st.sep as usize & 3];
+    let eq = ["=", " =", "= ", " = "][st.eq as usize & 3];
+    let q = if st.quote == 1 { '\'' } else { '"' };
+    for i in idx {
+        out.push_str(sep);
+        out.push_str(&attrs[i].0);
+        out.push_str(eq);
+        out.push(q);
+        out.push_str(&attrs[i].1);
+        out.push(q);
+    }
+    if st.sep == 3 && !attrs.is_empty() {
+        out.push(' ');
+    }
+}
+
+/// A paragraph's text with its blanks written as `text:s` elements. `mode` 1: every run of blanks becomes one
+/// `<text:s text:c="n"/>` (`text:c` omitted for a single blank); 2: the first blank of a run stays a character,
+/// the rest becomes a `text:s`; anything else: plain text.
+pub fn paragraph_xml(p: &str, mode: u8, st: AttrStyle) -> String {
+    if mode != 1 && mode != 2 {
+        return escape_text(p);
+    }
+    let mut out = String::new();
+    let chars: Vec<char> = p.chars().collect();
+    let mut i = 0;
+    while i < chars.len() {
+        if chars[i] == ' ' {
+            let mut j = i;
+            while j < chars.len() && chars[j] == ' ' {
+                j += 1;
+            }
+            let mut n = j - i;
+            if mode == 2 {
+                out.push(' ');
+                n -= 1;
+            }
+            if n > 0 {
+                out.push_str("<text:s");
+                if n > 1 {
+                    write_attrs(&mut out, &[("text:c".to_string(), n.to_string())], st);
+                }
+                out.push_str("/>");
+            }
+            i = j;
+        } else {
+            out.push_str(&escape_text(&chars[i].to_string()));
+            i += 1;
+        }
+    }
+    out
+}
+
 /// What a cell stores (its `office:value-type` and value attribute / `text:p` content).
 #[derive(Clone, Debug, PartialEq)]
 pub enum OdsVal {
@@ -81,11 +168,15 @@ pub struct OdsCell {
     /// (false) — then the string cell is childless and `self_closing` chooses `<…/>` or `<…></…>`; both read
     /// as the empty string
     pub empty_paragraph: bool,
+    /// spelling of the element's attributes (quotes, white space, order)
+    pub attr_style: AttrStyle,
+    /// `Str` only: how blanks are written, see `paragraph_xml` (0 = as characters)
+    pub text_s: u8,
 }
 
 impl OdsCell {
     pub fn new(val: OdsVal) -> OdsCell {
-        OdsCell { val, formula: None, repeat: None, covered: false, display: None, span: None, self_closing: true, raw: None, annotation: None, extra_attrs: String::new(), empty_paragraph: true }
+        OdsCell { val, formula: None, repeat: None, covered: false, display: None, span: None, self_closing: true, raw: None, annotation: None, extra_attrs: String::new(), empty_paragraph: true, attr_style: AttrStyle::default(), text_s: 0 }
     }
     pub fn empty() -> OdsCell {
         OdsCell::new(OdsVal::Empty)
@@ -135,14 +226,17 @@ impl OdsCell {
         out.push('<');
         out.push_str(tag);
         out.push_str(&self.extra_attrs);
+        let mut attrs: Vec<(String, String)> = vec![];
+        let mut at = |k: &str, v: String| attrs.push((k.to_string(), v));
         if let Some(k) = self.repeat {
-            out.push_str(&format!(" table:number-columns-repeated=\"{k}\""));
+            at("table:number-columns-repeated", k.to_string());
         }
         if let Some((r, c)) = self.span {
-            out.push_str(&format!(" table:number-columns-spanned=\"{c}\" table:number-rows-spanned=\"{r}\""));
+            at("table:number-columns-spanned", c.to_string());
+            at("table:number-rows-spanned", r.to_string());
         }
         if let Some(f) = &self.formula {
-            out.push_str(&format!(" table:formula=\"{}\"", escape_attr(f)));
+            at("table:formula", escape_attr(f));
         }
         let mut body = String::new();
         if let Some(a) = &self.annotation {
@@ -152,25 +246,46 @@ impl OdsCell {
         }
         match &self.val {
             OdsVal::Empty => {}
-            OdsVal::Float(f) => out.push_str(&format!(" office:value-type=\"float\" office:value=\"{}\"", fmt_f64(*f))),
-            OdsVal::Percentage(f) => out.push_str(&format!(" office:value-type=\"percentage\" office:value=\"{}\"", fmt_f64(*f))),
+            OdsVal::Float(f) => {
+                at("office:value-type", "float".into());
+                at("office:value", fmt_f64(*f));
+            }
+            OdsVal::Percentage(f) => {
+                at("office:value-type", "percentage".into());
+                at("office:value", fmt_f64(*f));
+            }
             OdsVal::Currency(f) => {
-                out.push_str(&format!(" office:value-type=\"currency\" office:currency=\"EUR\" office:value=\"{}\"", fmt_f64(*f)))
+                at("office:value-type", "currency".into());
+                at("office:currency", "EUR".into());
+                at("office:value", fmt_f64(*f));
             }
             OdsVal::Str(s) => {
-                out.push_str(" office:value-type=\"string\"");
+                at("office:value-type", "string".into());
                 let paras: Vec<&str> = if s.is_empty() && !self.empty_paragraph { vec![] } else { s.split('\n').collect() };
                 for p in paras {
                     body.push_str("<text:p>");
-                    body.push_str(&escape_text(p));
+                    body.push_str(&paragraph_xml(p, self.text_s, self.attr_style));
                     body.push_str("</text:p>");
                 }
             }
-            OdsVal::StrAttr(s) => out.push_str(&format!(" office:value-type=\"string\" office:string-value=\"{}\"", escape_attr(s))),
-            OdsVal::Bool(b) => out.push_str(&format!(" office:value-type=\"boolean\" office:boolean-value=\"{b}\"")),
-            OdsVal::Date(s) => out.push_str(&format!(" office:value-type=\"date\" office:date-value=\"{}\"", escape_attr(s))),
-            OdsVal::Time(s) => out.push_str(&format!(" office:value-type=\"time\" office:time-value=\"{}\"", escape_attr(s))),
+            OdsVal::StrAttr(s) => {
+                at("office:value-type", "string".into());
+                at("office:string-value", escape_attr(s));
+            }
+            OdsVal::Bool(b) => {
+                at("office:value-type", "boolean".into());
+                at("office:boolean-value", b.to_string());
+            }
+            OdsVal::Date(s) => {
+                at("office:value-type", "date".into());
+                at("office:date-value", escape_attr(s));
+            }
+            OdsVal::Time(s) => {
+                at("office:value-type", "time".into());
+                at("office:time-value", escape_attr(s));
+            }
         }
+        write_attrs(out, &attrs, self.attr_style);
         if !matches!(self.val, OdsVal::Str(_)) {
             if let Some(d) = &self.display {
                 body.push_str("<text:p>");
@@ -209,6 +324,8 @@ pub struct RowRun {
     pub extra_attrs: String,
     /// a row without cell elements is written `<table:table-row …/>` instead of `<table:table-row …></table:table-row>`
     pub self_closing: bool,
+    /// spelling of the element's attributes (quotes, white space, order)
+    pub attr_style: AttrStyle,
 }
 
 /// Elements of ODF 1.2 that merely group rows (none of them changes any cell position)
@@ -234,7 +351,7 @@ impl RowWrap {
 
 impl RowRun {
     pub fn new(cells: Vec<OdsCell>) -> RowRun {
-        RowRun { repeat: None, cells, open: vec![], close: 0, visibility: None, soft_break_before: false, extra_attrs: String::new(), self_closing: false }
+        RowRun { repeat: None, cells, open: vec![], close: 0, visibility: None, soft_break_before: false, extra_attrs: String::new(), self_closing: false, attr_style: AttrStyle::default() }
     }
     pub fn times(mut self, k: usize) -> RowRun {
         self.repeat = Some(k);
@@ -250,12 +367,14 @@ impl RowRun {
         }
         out.push_str("<table:table-row");
         out.push_str(&self.extra_attrs);
+        let mut attrs: Vec<(String, String)> = vec![];
         if let Some(v) = &self.visibility {
-            out.push_str(&format!(" table:visibility=\"{}\"", escape_attr(v)));
+            attrs.push(("table:visibility".into(), escape_attr(v)));
         }
         if let Some(k) = self.repeat {
-            out.push_str(&format!(" table:number-rows-repeated=\"{k}\""));
+            attrs.push(("table:number-rows-repeated".into(), k.to_string()));
         }
+        write_attrs(out, &attrs, self.attr_style);
         if self.cells.is_empty() && self.self_closing {
             out.push_str("/>");
             return;
@@ -288,6 +407,8 @@ pub struct OdsSheet {
     /// a table without any child (no rows, no prelude / postlude / column declarations) is written
     /// `<table:table …/>`
     pub self_closing: bool,
+    /// spelling of the `table:table` element's attributes (`table:name`, `table:style-name`)
+    pub attr_style: AttrStyle,
 }
 
 /// Column declarations for `n` columns in one of the legal ODF shapes; `shape` is taken modulo the number of
@@ -337,7 +458,7 @@ pub type Grid = BTreeMap<(u64, u64), (Data, String)>;
 
 impl OdsSheet {
     pub fn new(name: &str, rows: Vec<RowRun>) -> OdsSheet {
-        OdsSheet { name: name.to_string(), rows, display: None, columns_decl: None, prelude: String::new(), postlude: String::new(), extra_attrs: String::new(), self_closing: false }
+        OdsSheet { name: name.to_string(), rows, display: None, columns_decl: None, prelude: String::new(), postlude: String::new(), extra_attrs: String::new(), self_closing: false, attr_style: AttrStyle::default() }
     }
     /// Semantic expansion of the runs. Blank runs are skipped without being enumerated, so huge blank
     /// repeats are cheap; a repeated non-blank row/cell is enumerated.
@@ -413,10 +534,12 @@ impl OdsBook {
         }
         x.push_str("</office:automatic-styles><office:body><office:spreadsheet>");
         for (i, s) in self.sheets.iter().enumerate() {
-            x.push_str(&format!("<table:table table:name=\"{}\"", escape_attr(&s.name)));
+            x.push_str("<table:table");
+            let mut attrs: Vec<(String, String)> = vec![("table:name".into(), escape_attr(&s.name))];
             if s.display.is_some() {
-                x.push_str(&format!(" table:style-name=\"ta{}\"", i + 1));
+                attrs.push(("table:style-name".into(), format!("ta{}", i + 1)));
             }
+            write_attrs(&mut x, &attrs, s.attr_style);
             x.push_str(&s.extra_attrs);
             if s.self_closing && s.rows.is_empty() && s.prelude.is_empty() && s.postlude.is_empty() && s.columns_decl.is_none() {
                 x.push_str("/>");
@@ -586,6 +709,35 @@ mod tests {
         let mut enc = book.clone();
         enc.encrypted = true;
         assert!(matches!(Ods::new(Cursor::new(enc.to_bytes())), Err(calamine::OdsError::Password)));
+    }
+
+    #[test]
+    fn attribute_spellings_and_text_s() {
+        for code in [0u32, 1, 2, 4, 6, 8, 16, 24, 31, 32 * 7 + 5, 32 * 12345 + 30] {
+            let st = AttrStyle::from_code(code);
+            assert_eq!(st.code(), code);
+            let long = format!("a{}b c  d", " ".repeat(40));
+            let mut c1 = OdsCell::empty_run(3);
+            c1.attr_style = st;
+            let mut c2 = OdsCell::float(1.5).times(2).with_formula("of:=1<2");
+            c2.attr_style = st;
+            let mut c3 = OdsCell::string(&long);
+            c3.attr_style = st;
+            c3.text_s = 1 + (code % 2) as u8;
+            let mut row = RowRun::new(vec![c1, c2, c3]).times(2);
+            row.attr_style = st;
+            row.visibility = Some("collapse".into());
+            let mut sheet = OdsSheet::new("S'1", vec![RowRun::new(vec![]).times(3), row]);
+            sheet.attr_style = st;
+            sheet.display = Some(true);
+            let book = OdsBook::new(vec![sheet]);
+            let mut ods: Ods<_> = Ods::new(Cursor::new(book.to_bytes())).unwrap_or_else(|e| panic!("open {code}: {e:?}\n{}", book.content_xml()));
+            let r = ods.worksheet_range("S'1").unwrap();
+            assert_eq!((r.start(), r.end()), (Some((3, 3)), Some((4, 5))), "style {code}");
+            assert_eq!(r.get_value((4, 4)), Some(&Data::Float(1.5)));
+            assert_eq!(r.get_value((3, 5)), Some(&Data::String(long.clone())), "style {code}: {}", book.content_xml());
+            assert_eq!(ods.worksheet_formula("S'1").unwrap().get_value((3, 3)), Some(&"of:=1<2".to_string()));
+        }
     }
 
     #[test]
